@@ -426,3 +426,182 @@ Proof.
   - reflexivity.
   - rewrite app_nil_r in E1. rewrite E1. cbn [apx_lines]. rewrite E2. reflexivity.
 Qed.
+
+(* ================================================================== C13: undeclared arguments, read_arg_from_str *)
+From Crusta Require Import Proofs.StoreProofs.
+
+(* ------------------------------------------------------------------ undeclared arguments *)
+(* the label an `arg(..).` line declares (none for any other line) *)
+Definition decl1 (l : option str) : list str :=
+  match l with
+  | None => []
+  | Some l =>
+      if all_ws l then []
+      else match match_arg_line l with
+           | Some x => match match_ident_ws x with Some a => [a] | None => [] end
+           | None => []
+           end
+  end.
+(* the labels declared by the `arg` lines among [ls], in order *)
+Definition declared_labels (ls : list (option str)) : list str := flat_map decl1 ls.
+
+Lemma new_attack_ls (f : fw str) a b : ls (fst (new_attack str str_eqb f a b)) = ls f.
+Proof.
+  unfold new_attack. destruct (find_label str str_eqb (ls f) a); [|reflexivity].
+  destruct (find_label str str_eqb (ls f) b); [|reflexivity]. destruct (existsb _ _); reflexivity.
+Qed.
+
+Definition ls_inv (labels : list str) (af : option (fw str)) : Prop :=
+  ls (apx_fw labels af) = new_with_labels str str_eqb labels.
+
+Lemma apx_step_decl l labels af : ls_inv labels af ->
+  apx_step l labels af = AStop RdErr \/
+  exists af', apx_step l labels af = ACont (labels ++ decl1 l) af' /\ ls_inv (labels ++ decl1 l) af'.
+Proof.
+  intros Hinv. unfold apx_step, decl1. destruct l as [l|]; [|left; reflexivity].
+  destruct (all_ws l).
+  { right. exists af. rewrite app_nil_r. split; [reflexivity|exact Hinv]. }
+  destruct (match_arg_line l) as [x|].
+  - destruct (match_ident_ws x) as [a|]; [|left; reflexivity].
+    destruct af as [f|]; [left; reflexivity|]. right. exists None. split; [reflexivity|reflexivity].
+  - destruct (match_att_line l) as [[x1 x2]|]; [|left; reflexivity].
+    destruct (match_ident_ws x1) as [a|]; [|left; reflexivity].
+    destruct (match_ident_ws x2) as [b|]; [|left; reflexivity].
+    pose proof (new_attack_ls (apx_fw labels af) a b) as Hls.
+    destruct (new_attack str str_eqb (apx_fw labels af) a b) as [f' [| |]]; try (left; reflexivity).
+    right. exists (Some f'). rewrite app_nil_r. split; [reflexivity|].
+    unfold ls_inv. cbn [apx_fw fst] in *. rewrite Hls. exact Hinv.
+Qed.
+
+Lemma apx_prefix_decl pre : forall rest labels af, ls_inv labels af ->
+  apx_lines (pre ++ rest) labels af = RdErr \/
+  exists af', apx_lines (pre ++ rest) labels af = apx_lines rest (labels ++ declared_labels pre) af' /\
+              ls_inv (labels ++ declared_labels pre) af'.
+Proof.
+  induction pre as [|l pre IH]; intros rest labels af Hinv.
+  - right. exists af. cbn [declared_labels flat_map app]. rewrite app_nil_r. split; [reflexivity|exact Hinv].
+  - cbn [app]. rewrite apx_lines_cons.
+    destruct (apx_step_decl l labels af Hinv) as [H|[a1 [H Hinv1]]]; rewrite H; [left; reflexivity|].
+    destruct (IH rest _ a1 Hinv1) as [H2|[a2 [H2 Hinv2]]]; [left; exact H2|].
+    right. exists a2. cbn [declared_labels flat_map]. fold (declared_labels pre).
+    rewrite app_assoc. split; assumption.
+Qed.
+
+Lemma dedup_sub {L} (leqb : L -> L -> bool) (l : list L) : forall seen x, In x (dedup leqb seen l) -> In x l.
+Proof.
+  induction l as [|y l IH]; intros seen x Hin; cbn [dedup] in Hin; [assumption|].
+  destruct (existsb (leqb y) seen).
+  - right. eapply IH, Hin.
+  - destruct Hin as [->|Hin]; [left; reflexivity|right; eapply IH, Hin].
+Qed.
+
+Lemma find_label_undeclared labels a : ~ In a labels ->
+  find_label str str_eqb (new_with_labels str str_eqb labels) a = None.
+Proof.
+  intros Hn. rewrite (new_with_labels_plain str str_eqb), (find_label_plain str str_eqb).
+  apply position_None_iff. destruct (existsb (str_eqb a) (dedup str_eqb [] labels)) eqn:E; [|reflexivity].
+  exfalso. apply existsb_exists in E. destruct E as [y [Hy Hay]]. apply str_eqb_eq in Hay. subst y.
+  apply Hn. eapply dedup_sub, Hy.
+Qed.
+
+(* an `att(a,b).` line one of whose names was not declared by an `arg` line before it: error,
+   whatever precedes (if what precedes is not accepted, that is an error too) and follows *)
+Lemma apx_rejects_undeclared pre l post x1 x2 a b :
+  all_ws l = false -> match_arg_line l = None -> match_att_line l = Some (x1, x2) ->
+  match_ident_ws x1 = Some a -> match_ident_ws x2 = Some b ->
+  (~ In a (declared_labels pre) \/ ~ In b (declared_labels pre)) ->
+  apx_lines (pre ++ Some l :: post) [] None = RdErr.
+Proof.
+  intros H1 H2 H3 H4 H5 Hun.
+  destruct (apx_prefix_decl pre (Some l :: post) [] None eq_refl) as [H|[af' [H Hinv]]]; [exact H|].
+  rewrite H, apx_lines_cons. cbn [app] in *. unfold apx_step. rewrite H1, H2, H3, H4, H5.
+  unfold new_attack. unfold ls_inv in Hinv. rewrite Hinv.
+  destruct Hun as [Hun|Hun].
+  - rewrite (find_label_undeclared _ a Hun). reflexivity.
+  - rewrite (find_label_undeclared _ b Hun).
+    destruct (find_label str str_eqb (new_with_labels str str_eqb (declared_labels pre)) a); reflexivity.
+Qed.
+
+(* ------------------------------------------------------------------ read_arg_from_str *)
+Lemma snd_functional {A B} (l : list (A * B)) x y k :
+  NoDup (map snd l) -> In (x, k) l -> In (y, k) l -> x = y.
+Proof.
+  induction l as [|[z k'] l IH]; intros Hnd Hx Hy; [destruct Hx|].
+  cbn [map snd] in Hnd. inversion Hnd as [|? ? Hn Hnd']; subst.
+  destruct Hx as [Hx|Hx]; destruct Hy as [Hy|Hy].
+  - congruence.
+  - injection Hx as -> ->. exfalso. apply Hn. apply in_map_iff. exists (y, k). split; [reflexivity|assumption].
+  - injection Hy as -> ->. exfalso. apply Hn. apply in_map_iff. exists (x, k). split; [reflexivity|assumption].
+  - apply IH; assumption.
+Qed.
+
+Lemma find_label_iff (f : fw str) l id : StoreProofs.Inv str f ->
+  (find_label str str_eqb (ls f) l = Some id <-> In (id, l) (iter_args str f)).
+Proof.
+  intros Hinv. split.
+  - intros H. apply (find_label_Some str str_eqb str_eqb_spec f l id Hinv) in H.
+    unfold iter_args, ls_iter. apply (live_slot str f id l Hinv). exact H.
+  - intros Hin. rewrite (find_label_sfind str str_eqb f l Hinv).
+    unfold s_find, abs. cbn [live].
+    destruct (find (fun p => str_eqb l (snd p)) (iter_args str f)) as [[i l']|] eqn:E.
+    + apply find_some in E. destruct E as [Hi Hl]. cbn [snd] in Hl. apply str_eqb_eq in Hl. subst l'.
+      cbn [option_map fst]. f_equal. eapply snd_functional; [|exact Hi|exact Hin].
+      exact (inv_lab str f Hinv).
+    + exfalso. pose proof (find_none _ _ E _ Hin) as Hf. cbn [snd] in Hf. rewrite str_eqb_refl in Hf. discriminate.
+Qed.
+
+(* AspartixReader::read_arg_from_str on ANY reachable store *)
+Lemma apx_read_arg_store (f : fw str) s :
+  (exists ls os, f = run_ops str str_eqb (fw_new_with_labels str str_eqb ls) os) ->
+  (forall k l, apx_read_arg f s = RdOk (k, l) <-> l = s /\ In (k, s) (iter_args str f)) /\
+  (apx_read_arg f s = RdErr <-> ~ In s (map snd (iter_args str f))) /\
+  apx_read_arg f s <> RdPanic.
+Proof.
+  intros Hr. pose proof (reach_inv str str_eqb str_eqb_spec f Hr) as Hinv.
+  unfold apx_read_arg. split; [|split].
+  - intros k l. destruct (find_label str str_eqb (ls f) s) as [id|] eqn:E.
+    + apply (find_label_iff f s id Hinv) in E. split.
+      * intros [= <- <-]. split; [reflexivity|exact E].
+      * intros [-> Hin]. do 2 f_equal. apply (find_label_iff f s k Hinv) in Hin.
+        apply (find_label_iff f s id Hinv) in E. congruence.
+    + split; [discriminate|]. intros [_ Hin]. apply (find_label_iff f s k Hinv) in Hin. congruence.
+  - destruct (find_label str str_eqb (ls f) s) as [id|] eqn:E.
+    + split; [discriminate|]. intros Hn. exfalso. apply Hn.
+      apply (find_label_iff f s id Hinv) in E. exact (in_map snd _ _ E).
+    + split; [|reflexivity]. intros _ Hin. apply in_map_iff in Hin. destruct Hin as [[k l] [Hl Hin]].
+      cbn [snd] in Hl. subst l. apply (find_label_iff f s k Hinv) in Hin. congruence.
+  - destruct (find_label str str_eqb (ls f) s); discriminate.
+Qed.
+
+Lemma dedup_In_iff (l : list str) x : In x (dedup str_eqb [] l) <-> In x l.
+Proof.
+  split; [apply dedup_sub|]. intros H. apply (dedup_In str_eqb str_eqb_spec l [] x). exact H.
+Qed.
+
+Lemma run_ops_ls os : forall f : fw str,
+  Forall (fun o => match o with OpNewAtt _ _ => True | _ => False end) os ->
+  ls (run_ops str str_eqb f os) = ls f.
+Proof.
+  unfold run_ops. induction os as [|o os IH]; intros f Hall; cbn [fold_left]; [reflexivity|].
+  inversion Hall as [|? ? Ho Hos]; subst. rewrite (IH _ Hos).
+  destruct o as [l|l|a b|a b]; try destruct Ho. cbn [step]. apply new_attack_ls.
+Qed.
+
+(* ... and on the framework the reader returns *)
+Lemma apx_read_arg_exact decls atts s :
+  (forall k l, apx_read_arg (apx_result decls atts) s = RdOk (k, l) <->
+               l = s /\ In (k, s) (iter_args str (apx_result decls atts))) /\
+  (apx_read_arg (apx_result decls atts) s = RdErr <-> ~ In s decls) /\
+  apx_read_arg (apx_result decls atts) s <> RdPanic /\
+  iter_args str (apx_result decls atts) = numbered 0 (dedup str_eqb [] decls).
+Proof.
+  assert (Hr : exists ls os, apx_result decls atts = run_ops str str_eqb (fw_new_with_labels str str_eqb ls) os).
+  { eexists; eexists; reflexivity. }
+  assert (Hargs : iter_args str (apx_result decls atts) = numbered 0 (dedup str_eqb [] decls)).
+  { unfold iter_args, apx_result. rewrite run_ops_ls.
+    - apply (init_iter_args str str_eqb).
+    - apply Forall_forall. intros o Ho. apply in_map_iff in Ho. destruct Ho as [p [<- _]]. exact I. }
+  destruct (apx_read_arg_store _ s Hr) as [H1 [H2 H3]].
+  split; [exact H1|]. split; [|split; [exact H3|exact Hargs]].
+  rewrite H2, Hargs, map_snd_numbered, dedup_In_iff. reflexivity.
+Qed.
